@@ -4,7 +4,13 @@ TV = "translation_validation"
 _BND = "Bounded: every argument, choice value, flag, index and key is a universally quantified SMT variable; structure (program from the catalogue grammar, addresses, shapes <= 3, nesting <= 3, request kinds) is enumerated."
 _NOTE = "Trusted: jax.make_jaxpr faithfully stages the real code; the E1 interpreter (self-validated against jax.core.eval_jaxpr on every obligation); z3; float32 modelled as reals; TFP log_prob as the single-density oracle."
 
+_MC = "bounded symbolic model checking: jaxprs of the real GFI calls symbolically executed into z3 (all values symbolic, structure enumerated), counterexamples replayed on the real code"
+
 CHECKS = {
+    "C01": (MC, _MC, "For every catalogue program and every history (simulate | importance(S) | importance;update(S,args') | update;update | regenerate(sel) | index edit at a symbolic position) the trace's score/retval equal assess on its own choices and args, for all values. " + _BND, _NOTE, "DESIGN.md section 4 C01"),
+    "C03": (MC, _MC, "importance(S): weight equals the sum of independent reference log-densities of exactly the constrained sites, the trace agrees with the constraint where present, empty/full constraints included, for all values. " + _BND, _NOTE, "DESIGN.md section 4 C03"),
+    "C05": (MC, _MC, "importance(full);Update(S, args'): new args, choices (constraint on S, previous values elsewhere), weight = reference newscore-oldscore when nothing is resampled, backward constraint = previous values at overwritten addresses, for all values. " + _BND, _NOTE, "DESIGN.md section 4 C05"),
+    "C06": (MC, _MC, "forward edit followed by its returned backward request restores choices, score and retval with weight -w, for Update/Regenerate/IndexRequest/StaticRequest/DiffAnnotate/EmptyRequest on every catalogue program that accepts them, for all values. " + _BND, _NOTE, "DESIGN.md section 4 C06"),
     "C02": (MC, "bounded symbolic model checking: jaxpr of real assess/importance symbolically executed into z3 and compared with an independent reference log-density",
             "assess and full-constraint importance scores equal an independent reference joint log-density (Python loops + TFP log_prob) for all values. " + _BND, _NOTE, "DESIGN.md section 4 C02"),
 }
